@@ -196,7 +196,8 @@ func (b *Broker) reconnectWatcher() {
 	clients := []*Client{}
 	b.Lock()
 	for sessionID, client := range b.clients {
-		if _, ok := sessions[sessionID]; !ok {
+		// the keys of the listing are store keys, not client ids
+		if _, ok := sessions[sessionStoreKey(sessionID)]; !ok {
 			clients = append(clients, client)
 		}
 	}
